@@ -56,7 +56,7 @@ def make_ev_resolver(tn, fd, wrap=None):
     def resolver(root, ctx, info, **args):
         boom = getattr(ctx, "boom", None)
         if boom and (ctx.ev_of(root), tuple(info.path)) in boom:
-            raise RX.Boom((ctx.ev_of(root), tuple(info.path)))   # an unexpected exception aborts this event only
+            raise RX.boom_for((ctx.ev_of(root), tuple(info.path)))   # an unexpected exception aborts this event only
         b = ctx.behaviour_ev(tn, fd, list(info.path), args, root)
         if b[0] == "error":
             raise ResolverError(b[1], extensions=b[2])
